@@ -90,13 +90,13 @@ theorem C10_asm (v variant : Nat) :
 
 /-- **C10 (declarations).** An `OpTypeInt`/`OpTypeFloat` declaration with two/one 32-bit literal operands binds its
 result id to that width; the newest binding wins; other ids are untouched. -/
-theorem C10_track_int (G : Tables) (τ : Tracker) (rid bits sign : Nat) (rest : List Operand)
+theorem C10_track_int (G : TTables) (τ : Tracker) (rid bits sign : Nat) (rest : List Operand)
     (hT : G.isType G.opTypeInt = true) :
     τ.track G ⟨G.opTypeInt, none, some rid, .w G.vLit32 bits :: .w G.vLit32 sign :: rest⟩
       = some ((rid, .int bits (sign == 1)) :: τ) := by
   simp [Tracker.track, hT]
 
-theorem C10_track_float (G : Tables) (τ : Tracker) (rid bits : Nat) (rest : List Operand)
+theorem C10_track_float (G : TTables) (τ : Tracker) (rid bits : Nat) (rest : List Operand)
     (hT : G.isType G.opTypeFloat = true) (hne : G.opTypeFloat ≠ G.opTypeInt) :
     τ.track G ⟨G.opTypeFloat, none, some rid, .w G.vLit32 bits :: rest⟩ = some ((rid, .float bits) :: τ) := by
   have : (G.opTypeFloat == G.opTypeInt) = false := by simpa using hne
@@ -113,7 +113,7 @@ theorem resolve_cons (τ : Tracker) (rid id : Nat) (t : TType) :
 /-- **C10 (propagation).** A value-defining instruction (any non-type opcode with a result id) gives its result id the
 tracked type of its result type, when that one is tracked; otherwise the tracker is unchanged. This is how the
 selector of an `OpSwitch` gets its width. -/
-theorem C10_track_value (G : Tables) (τ : Tracker) (i : Inst) (rid : Nat) (hr : i.rid = some rid)
+theorem C10_track_value (G : TTables) (τ : Tracker) (i : Inst) (rid : Nat) (hr : i.rid = some rid)
     (hT : G.isType i.opcode = false) :
     τ.track G i = some (match i.rtype.bind τ.resolve with
       | some t => (rid, t) :: τ
@@ -122,7 +122,7 @@ theorem C10_track_value (G : Tables) (τ : Tracker) (i : Inst) (rid : Nat) (hr :
   cases i.rtype.bind τ.resolve <;> simp
 
 /-- instructions without a result id never change the tracker -/
-theorem C10_track_noid (G : Tables) (τ : Tracker) (i : Inst) (hr : i.rid = none) : τ.track G i = some τ := by
+theorem C10_track_noid (G : TTables) (τ : Tracker) (i : Inst) (hr : i.rid = none) : τ.track G i = some τ := by
   simp [Tracker.track, hr]
 
 /-- **C10 (freshness).** Every parse starts from the empty tracker: `parse` has no tracker parameter and its
